@@ -69,7 +69,9 @@ def grammar_value(rng, ty):
                            f"{rng.randint(1, 9)}e-{rng.randint(1, 9)}", f"+{rng.randint(0, 9)}.5E+2", "1e10", f"{rng.randint(0, 50)}"])
     if ty == "Z":
         alphabet = "abcXYZ019_#.-:*/ ,;=+()[]@!~"
-        return "".join(rng.choice(alphabet) for _ in range(rng.randint(0, 14)))
+        # trailing blanks at the end of a line are not treated as part of the last field (every
+        # line-oriented reader here strips the line end), so Z values never end in a space
+        return "".join(rng.choice(alphabet) for _ in range(rng.randint(0, 14))).rstrip(" ")
     if ty == "H":
         return "".join(rng.choice("0123456789ABCDEF") for _ in range(2 * rng.randint(0, 5)))
     if ty == "B":
@@ -90,7 +92,7 @@ def grammar_tags(rng, cigar, n=None, repeats=True, forced=None):
         if repeats and used and rng.random() < 0.08:
             tag = rng.choice(used)
         else:
-            tag = rng.choice("abcdefghijklmnopqrstuvwxyzXYZNM") + rng.choice("abcdefghijklmnopqrstuvwxyz0123456789XYZ")
+            tag = rng.choice("abcdefghijklmnopqrstuvwxyzXYZNM") + rng.choice("abcdefghijklmnopqrstuvwxyzXYZabcdefghijklmnopqrstuvwxyzXYZ012345")
             if tag in ("cg", "ds", "tp"):
                 tag = "zq"
         used.append(tag)
